@@ -243,3 +243,48 @@ func VH_C11_relay_survives_reload() {
 	verifAssert("C11.relay.no-deadline-after-header", len(conn.deadlines) == 2 && conn.deadlines[1].IsZero() && len(target.deadlines) == 0)
 	verifReach("C11.relay.done", true)
 }
+
+// the client half-closes first; the target keeps sending afterwards and everything it sends is
+// still delivered (each direction ends independently)
+func VH_C02_client_closes_first() {
+	cl, specs, entries := verifMakeList(1, 1, false)
+	key := verifKey(specs[0].cipher, verifSecrets[specs[0].secret])
+	d := verifBytes("c", 2)
+	stream := verifClientStream(key, append([]byte{1, 93, 184, 216, 34, 0, 80}, d...))
+	verifAssume(!entries[0].SaltGenerator.IsServerSalt(stream[:key.SaltSize()]))
+	var glog []string
+	conn := &verifStreamConn{name: "client", glog: &glog, remote: &net.TCPAddr{IP: net.IPv4(203, 0, 113, 5), Port: 50000}}
+	conn.reads = []verifSRead{{data: stream}}
+	target := &verifStreamConn{name: "target", glog: &glog, remote: &net.TCPAddr{IP: net.IPv4(93, 184, 216, 34), Port: 80}}
+	t1, t2 := verifBytes("t1", 2), verifBytes("t2", 3)
+	target.reads = []verifSRead{{data: t1}, {data: t2}}
+	target.onRead = func(call int) {
+		if call == 2 {
+			verifQuiesce() // the client-to-target direction runs to its end now (client EOF, FIN to target)
+		}
+	}
+	h := NewStreamHandler(NewShadowsocksStreamAuthenticator(cl, nil, nil, nil), tcpReadTimeout)
+	h.SetTargetDialer(&verifDialer{conn: target})
+	m := &verifTCPMetrics{}
+	h.Handle(contextBackground(), conn, m)
+	verifQuiesce()
+	verifAssert("C02.client-first.status-ok", len(m.closed) == 1 && m.closed[0] == "OK")
+	fin := verifIndexStr(glog, "target:CloseWrite")
+	verifAssert("C02.client-first.fin-reached-target-mid-stream", fin >= 0 && fin < verifLastIndexStr(glog, "target:Read"))
+	verifAssert("C02.client-first.client-data-intact", len(target.written) == 2 && verifBytesEq(target.written, d))
+	r := shadowsocks.NewReader(bytes.NewReader(conn.written), key)
+	got, err := io.ReadAll(r)
+	verifAssert("C02.client-first.target-data-after-fin-delivered", err == nil && len(got) == 5 && verifBytesEq(got, append(append([]byte{}, t1...), t2...)))
+	verifAssert("C02.client-first.target-not-closed-early", verifIndexStr(glog, "target:Close") > verifLastIndexStr(glog, "client:Write"))
+	verifReach("C02.client-first.done", true)
+}
+
+func verifLastIndexStr(evs []string, name string) int {
+	k := -1
+	for i, e := range evs {
+		if e == name {
+			k = i
+		}
+	}
+	return k
+}
